@@ -24,6 +24,7 @@ SYMPY_OP_TO_PDDL_OP = {
 }
 
 DEFAULT_DECIMAL_DIGITS = os.environ.get("NUMERIC_PRECISION", 4)
+FLOAT_NOISE_THRESHOLD = 1e-9
 
 
 def is_number_string(s):
@@ -260,6 +261,14 @@ def simplify_equality(
     )
     transformed_left_expr = parse_expr(transformed_left_expr, evaluate=False)
     transformed_right_expr = parse_expr(transformed_right_expr, evaluate=False)
+    difference = expand(transformed_left_expr - transformed_right_expr)
+    if all(
+        abs(float(coefficient)) < FLOAT_NOISE_THRESHOLD
+        for coefficient in difference.as_coefficients_dict().values()
+    ):
+        # the two sides are identical up to floating point noise - the condition is trivial.
+        return None
+
     equation = Eq(transformed_left_expr, transformed_right_expr)
     simplified_equation = simplify(equation)
 
